@@ -1,7 +1,7 @@
 (* Properties/C19.v — Analytics reports are exact, sorted and independent of iteration order. *)
 From Coq Require Import List String Bool ZArith Arith Permutation.
 From YT Require Import Base.Str Base.KV Base.Sort Model.Doc Model.Dom Model.Merge Model.Overlay Model.Analytics
-  Proofs.AnalyticsProofs.
+  Model.AnalyticsEvents Proofs.AnalyticsProofs Proofs.AnalyticsEventsProofs.
 Import ListNotations.
 Local Open Scope list_scope.
 
@@ -59,6 +59,71 @@ Theorem C19_impact_exact : forall ov keys k cs,
   In (k, cs) (impact ov keys) <-> In k keys /\ cs = coords (mentions k) ov /\ cs <> [].
 Proof. exact impact_exact. Qed.
 Print Assumptions C19_impact_exact.
+
+(* ---------- the configurable parts of the builders: WithPlaceholderMatcher / PlaceholderMatcher (which values count),
+   OnPlaceholderEncountered / OnResolutionFailure (the callbacks, modelled as the list of events they receive) *)
+
+(* the default resolvers are the instances with the default matchers *)
+Theorem C19_ph_default_instance : forall keyf ov, ph_resolve keyf ov = ph_resolve_m keyf (fun s => possibly (la s)) ov.
+Proof. exact ph_resolve_is_default. Qed.
+Print Assumptions C19_ph_default_instance.
+Theorem C19_dep_default_instance : forall keyf src refs, dep_resolve keyf src refs = dep_resolve_m mentions keyf src refs.
+Proof. exact dep_resolve_is_default. Qed.
+Print Assumptions C19_dep_default_instance.
+
+(* FailedKeys under ANY value matcher: the selected keys whose value resolution leaves unchanged *)
+Theorem C19_failed_exact_any_matcher : forall keyf matcher ov k,
+  In k (failed_keys (ph_resolve_m keyf matcher ov)) <->
+  exists v, In (k, v) (flatten (o_merged false ov)) /\ keyf k = true /\
+            matcher (fmt_scalar v) = true /\ unresolved (o_merged false ov) (fmt_scalar v) = true.
+Proof. exact failed_exact_m. Qed.
+Print Assumptions C19_failed_exact_any_matcher.
+
+(* OnPlaceholderEncountered hears of exactly the selected (key, value text) pairs; OnResolutionFailure of exactly those that
+   resolution leaves unchanged, with the locations holding that very text, never without the first callback; and the
+   report's FailedKeys are the keys of the failure callbacks *)
+Theorem C19_seen_exact : forall keyf matcher ov k s,
+  In (PhSeen k s) (ph_events keyf matcher ov) <->
+  exists v, In (k, v) (flatten (o_merged false ov)) /\ s = fmt_scalar v /\ keyf k = true /\ matcher s = true.
+Proof. exact seen_exact. Qed.
+Print Assumptions C19_seen_exact.
+Theorem C19_failed_event_exact : forall keyf matcher ov k s co,
+  In (PhFailed k s co) (ph_events keyf matcher ov) <->
+  exists v, In (k, v) (flatten (o_merged false ov)) /\ s = fmt_scalar v /\ keyf k = true /\ matcher s = true /\
+            unresolved (o_merged false ov) s = true /\ co = coords (fun x => scalar_eqb x (SStr s)) ov.
+Proof. exact failed_event_exact. Qed.
+Print Assumptions C19_failed_event_exact.
+Theorem C19_failed_after_seen : forall keyf matcher ov k s co,
+  In (PhFailed k s co) (ph_events keyf matcher ov) -> In (PhSeen k s) (ph_events keyf matcher ov).
+Proof. exact failed_after_seen. Qed.
+Print Assumptions C19_failed_after_seen.
+Theorem C19_failed_keys_are_failed_events : forall keyf matcher ov k,
+  In k (failed_keys (ph_resolve_m keyf matcher ov)) <-> exists s co, In (PhFailed k s co) (ph_events keyf matcher ov).
+Proof. exact failed_keys_are_failed_events. Qed.
+Print Assumptions C19_failed_keys_are_failed_events.
+
+(* the dependency resolver's callback hears of exactly the non-empty per-document search results, under any mention
+   matcher, and Map[k] is their concatenation in document order (source first) *)
+Theorem C19_dep_event_exact : forall ment keyf src refs k co,
+  In (k, co) (dep_events ment keyf src refs) <->
+  In k (filter keyf (map fst (flatten (o_merged false src)))) /\
+  exists d, In d (src :: refs) /\ co = coords (ment k) d /\ co <> [].
+Proof. exact dep_event_exact. Qed.
+Print Assumptions C19_dep_event_exact.
+Theorem C19_dep_map_is_events : forall ment keyf src refs k cs,
+  In (k, cs) (dep_map (dep_resolve_m ment keyf src refs)) ->
+  cs = flat_map snd (filter (fun e => nonempty (snd e)) (map (fun d => (k, coords (ment k) d)) (src :: refs))).
+Proof. exact dep_map_is_events. Qed.
+Print Assumptions C19_dep_map_is_events.
+
+(* non-vacuity: an "every value counts" matcher makes a plain value a failure (resolution leaves it unchanged) *)
+Example C19_events_ex :
+  let ov := [("l0"%string, [("a"%string, Leaf (SStr "${b}")); ("b"%string, Leaf (SStr "plain"))])] in
+  ph_events (fun _ => true) (vm_eval VAll) ov =
+    [PhSeen "a" "${b}"; PhSeen "b" "plain"; PhFailed "b" "plain" [("l0", "b")]]%string /\
+  ph_events (fun _ => true) (vm_eval VDefault) ov = [PhSeen "a" "${b}"]%string /\
+  dep_events (mm_eval MDefault) (fun _ => true) ov [ov] = [("b", [("l0", "a")]); ("b", [("l0", "a")])]%string.
+Proof. vm_compute. repeat split; reflexivity. Qed.
 
 Example C19_ex :
   let ov := [("l0"%string, [("a"%string, Leaf (SStr "${b}-${b}")); ("b"%string, Leaf (SStr "${zz}"));
